@@ -272,11 +272,48 @@ fn apply_norm(n: Norm, s: &str, a: &Value) -> Option<(String, Value)> {
                 }
             }
         }
-        Norm::RegexTrigger | Norm::RangeTrigger | Norm::BoundEscape => {
+        Norm::BoundEscape => {
+            // `\` + the escaped character are replaced together by two fresh letters (replacing the
+            // backslash alone can turn `>\:` into the field name `>x:`), then the backslash alone
+            let fresh2: char = "xqzkjvwyghmpuf".chars().find(|c| !s.contains(*c) && *c != fresh).unwrap_or('q');
+            let mut i = 0;
+            while i < cs.len() {
+                if cs[i] == '\\' {
+                    let mut done = false;
+                    if i + 1 < cs.len() {
+                        let from: String = [cs[i], cs[i + 1]].iter().collect();
+                        let to: String = [fresh, fresh2].iter().collect();
+                        let mut c2 = cs.clone();
+                        c2[i] = fresh;
+                        c2[i + 1] = fresh2;
+                        if let Some(t2) = strict_tree(&text(&c2)) {
+                            if matches!(renamed(&tree, &t2, &from, &to), Some(m) if m >= 1) {
+                                cs = c2;
+                                tree = t2;
+                                changed = true;
+                                done = true;
+                            }
+                        }
+                    }
+                    if !done {
+                        let mut c2 = cs.clone();
+                        c2[i] = fresh;
+                        if let Some(t2) = strict_tree(&text(&c2)) {
+                            if matches!(renamed(&tree, &t2, "\\", &fresh_s), Some(m) if m >= 1) {
+                                cs = c2;
+                                tree = t2;
+                                changed = true;
+                            }
+                        }
+                    }
+                }
+                i += 1;
+            }
+        }
+        Norm::RegexTrigger | Norm::RangeTrigger => {
             let triggers: &[char] = match n {
                 Norm::RegexTrigger => &['/'],
-                Norm::RangeTrigger => &['<', '>'],
-                _ => &['\\'],
+                _ => &['<', '>'],
             };
             // all occurrences at once (identical clauses are deduplicated by rewrite_ast, so a
             // per-occurrence edit of one of two equal clauses changes the shape of the tree)
